@@ -290,3 +290,26 @@ func init() {
 		return Tuple{zeroName, in.newError("webdav: missing an XMLName struct field")}, true
 	}
 }
+
+func init() {
+	// StrNIn(name, n, lo, hi): n fresh bytes each in [lo,hi]; the range
+	// constraint is on fresh variables, hence always satisfiable, and is
+	// added to the path condition without a solver query.
+	intrinsics[vrtPkg+".StrNIn"] = func(in *Interp, fr *frame, a []Value) (Value, bool) {
+		name := in.freshName(a[0].(string))
+		n := int(asInt64(a[1]))
+		lo, hi := a[2].(Int).V, a[3].(Int).V
+		iv := inputVar{Name: name, Kind: "strn"}
+		b := make([]Value, n)
+		c := in.ctx
+		for i := 0; i < n; i++ {
+			t := c.Var(fmt.Sprintf("%s.%d", name, i), smt.BV(8))
+			iv.Terms = append(iv.Terms, t)
+			b[i] = SymInt{t}
+			in.addPC(c.Cmp(smt.OpULe, c.BVConst(lo, 8), t))
+			in.addPC(c.Cmp(smt.OpULe, t, c.BVConst(hi, 8)))
+		}
+		in.inputs = append(in.inputs, iv)
+		return mkXStr(b), true
+	}
+}
